@@ -7170,7 +7170,7 @@ def main(): # pragma: no cover
     try:
         with open(input_file) as f:
             contents = f.read()
-    except IOError as e:
+    except (IOError, UnicodeDecodeError) as e:
         print("Unable to read input file:", str(e), file=sys.stderr)
         exit(2)
 
